@@ -188,6 +188,17 @@ def L2(ctx, rule="L2"):
             par = fb.bodies.get(b.parent)
             uses = fl.closure_uses(par) if par is not None else []
             cons = [callee_path(t) for (_, _, t, _) in uses]
+            if par is not None and par.kind == "fn" and not uses:
+                # the step is a named private async fn / method: the fold's closure only calls it and returns its future
+                cons = []
+                for (cb_, cbb_, ct_) in fl.call_sites().get(par.id, []):
+                    if fb.is_test_body(cb_):
+                        continue
+                    rd_ = get_defs(cb_).of(0)
+                    direct = len(rd_) == 1 and rd_[0][0] == "call" and rd_[0][1] == cbb_
+                    us_ = fl.closure_uses(cb_) if cb_.kind == "closure" else []
+                    cons += [callee_path(t_) if direct else "%s (future not returned directly)" % callee_path(t_) for (_, _, t_, _) in us_] or ["?"]
+                cons = sorted(set(cons))
             ctx.check(cons in (["futures::StreamExt::fold"], ["futures::TryStreamExt::try_fold"]), rule, "sequential|%s" % key, m.where(b),
                       "the step closure is driven by %s (sequential by construction)" % (cons[0].split("::")[-1] if cons else "?"),
                       "the step closure is driven by %s" % cons)
@@ -307,12 +318,32 @@ def F_rules(ctx, rule="F"):
                         # value sent = one of the helper's parameters: take the argument of this call
                         vsrc_h = fl.sources_operand(hco, hs[0]["t"]["args"][1], (), "prov@" + hp)
                         pidx = None
+                        perr = None
                         for s3 in vsrc_h:
                             if s3.kind == "param" and s3[1] == hp and not s3[3]:
                                 pidx = s3[2]
+                            elif s3.kind == "param" and s3[1] == hp and tuple(s3[3]) == ("E",):
+                                perr = s3[2]
                         hs_aw = [a for a in awaits(hco) if a.operand.get("pl", {}).get("l") == hs[0]["t"]["dest"]["l"]]
                         if pidx is not None and pidx - 1 < len(ht["args"]) and hs_aw and not cond_guards(hco, hs[0]["bb"]):
                             helper_send = {"body": b, "bb": hbb, "t": {"args": [None, ht["args"][pidx - 1]], "dest": ht["dest"]}, "roles": {"RESULT"}}
+                        elif perr is not None and pidx is None and perr - 1 < len(ht["args"]) and hs_aw and len(vsrc_h) == 1:
+                            # the helper takes the function's whole Result and does the `if let Err(e)` itself: its send must sit
+                            # exactly on the Err arm of that parameter
+                            hg = [g for g in cond_guards(hco, hs[0]["bb"]) if (hco.blocks[g[0]]["term"].get("sp") or {}).get("desugar") != "Await"]
+                            on_err_h = bool(hg)
+                            for sb_, de_, vals_ in hg:
+                                e_ = strip_refs(de_)
+                                ok_g = False
+                                if e_.kind == "discr":
+                                    gsrc = fl.sources_operand(hco, {"k": "copy", "pl": {"l": 0, "p": []}}, (), "prov@" + hp) if False else None
+                                    ps_ = sources_of_expr(ctx, hco, strip_refs(e_[1]), mode="prov@" + hp)
+                                    ok_g = bool(ps_) and all(q.kind == "param" and q[1] == hp and q[2] == perr and not q[3] for q in ps_) and vals_ == frozenset(["1"])
+                                if not ok_g:
+                                    on_err_h = False
+                            if on_err_h:
+                                helper_send = {"body": b, "bb": hbb, "t": {"args": [None, ht["args"][perr - 1]], "dest": ht["dest"]}, "roles": {"RESULT"},
+                                               "err_in_helper": True, "hco": hco, "hbb": hs[0]["bb"]}
             if helper_send is not None:
                 rs = [helper_send]
         if not rs:
@@ -344,6 +375,11 @@ def F_rules(ctx, rule="F"):
         carries = bool(vs) and all(s.kind == "userfut" and s[2] == ("E",) for s in vs)
         on_err = False
         err_sb = None
+        if rs[0].get("err_in_helper"):
+            # the helper receives the user future's whole output and selects the Err arm itself (checked above)
+            carries = bool(vs) and all(s.kind == "userfut" and tuple(s[2]) == () for s in vs)
+            on_err = carries
+            err_sb = rs[0]["bb"]
         for sb, de, vals in cond_guards(b, rs[0]["bb"]):
             e_ = strip_refs(de)
             if e_.kind == "discr":
@@ -368,6 +404,12 @@ def F_rules(ctx, rule="F"):
                         done_blocks.append(ebb)
         rel_blocks = [r["bb"] for r in rel if r["body"].id == b.id and "DONE" in r["roles"] and r["kind"] == "FAILED"]
         okf2 = bool(done_blocks) and bool(rel_blocks) and b.all_paths_pass(rs[0]["bb"], rel_blocks, done_blocks)
+        if rs[0].get("err_in_helper"):
+            # error arm and release both live in the helper: from its send every path to its return releases the done-sender
+            hco_ = rs[0]["hco"]
+            rel_blocks = [r["bb"] for r in rel if r["body"].id == hco_.id and "DONE" in r["roles"]]
+            okf2 = bool(done_blocks) and bool(rel_blocks) and hco_.all_paths_pass(rs[0]["hbb"], rel_blocks, hco_.exits()) and \
+                all(b.dominates(rs[0]["bb"], x) for x in done_blocks)
         # ... and no done-send happens before the result is examined
         early = [x for x in done_blocks if err_sb is None or not b.dominates(err_sb, x)]
         ctx.check(not early, rule + "2", "done-after-result-check|%s" % key, where,
@@ -1015,6 +1057,7 @@ def O5(ctx, rule="O5"):
             rp = r.get("path", "") if isinstance(r, dict) else ""
             if p == "stream_outcome::StreamOutcome::<T>::new":
                 n_new += 1
+                ctx.cover(rule, b.id)
             elif t["dest"]["ty"].startswith("stream_outcome::StreamOutcome<") and (
                     p in ("std::default::Default::default", "stream_outcome::StreamOutcome::<T>::finished_with") or "stream_outcome::StreamOutcome" in rp and rp.endswith("::default")):
                 bad.append((b, bb, "call to %s" % (rp or p)))
@@ -1026,8 +1069,8 @@ def O5(ctx, rule="O5"):
                 "a streaming path makes a StreamOutcome by %s instead of StreamOutcome::new: its state and id lists do not reflect the run (e.g. NotStarted for an empty graph)" % why)
     if not bad:
         ctx.ok(rule, "outcome-source", "-", "%d bodies on the fold/for_each paths: every StreamOutcome comes from StreamOutcome::new (%d call sites)" % (len(bodies), n_new))
-    if n_new < 4:
-        ctx.unverifiable(rule, "floor", "-", "expected >= 4 StreamOutcome::new call sites on the streaming paths, found %d" % n_new)
+    # every fold / for_each / try_* entry point reaches a StreamOutcome::new call (directly or through a shared helper)
+    ctx.entry_floor(rule, rule, ("fold", "for_each", "try_fold", "try_for_each"), "StreamOutcome::new call")
 
 
 def lifted_guards(ctx, b, bb):
@@ -1192,6 +1235,20 @@ def O4(ctx, rule="O4"):
                 bx = fb.bodies[bid]
                 if bx.kind == "fn" and has_cf_aggs(bx) and any("std::result::Result<" in bx.locals[i]["s"] for i in range(1, bx.arg_count + 1)):
                     b = bx
+        if not has_cf_aggs(b):
+            # pure delegation to a sibling control wrapper (`control(..)` = `control_with(.., StreamOpts::default(), ..)`): the
+            # sibling's ControlFlow is returned as it is, nothing in this body looks at it
+            cf_entries = {e2["id"] for e2 in m.entries if "ControlFlow<" in e2["output"]["s"] and e2["id"] != e["id"]}
+            sib = [(bb, t) for bb, t in b.calls() if callee_path(t) in cf_entries]
+            looks = [sb for sb, blk in enumerate(b.blocks) if blk["term"]["k"] == "switch" and
+                     strip_refs(switch_expr(b, sb)).kind == "discr" and
+                     (blk["term"].get("sp") or {}).get("desugar") != "Await" and
+                     any(q.kind == "alloc" and q[1] in cf_entries or q.kind not in ("ctx",) and "ControlFlow" in str(q) for q in sources_of_expr(ctx, b, strip_refs(switch_expr(b, sb))[1]))]
+            if len(sib) == 1 and not looks:
+                rsrc = fl.sources_local(b, 0, ())
+                ctx.check(True, rule, "control-map|%s" % e["name"], where,
+                          "%s returns the ControlFlow of %s unchanged (mapping checked there)" % (e["name"], callee_path(sib[0][1]).split("::")[-1]))
+                continue
         from rules_build import path_conditions
         fin = str(st_names.index("Finished")) if "Finished" in st_names else "?"
 
@@ -1356,6 +1413,31 @@ def Q_rules(ctx, rule="Q"):
                 why = "lookup in field %s with id sources %s" % (sorted(map(str, cs)), [fmt_src(s) for s in ids][:3])
             ctx.check(ok3, rule + "3", "lookup|%s" % key, where, "the id produced by Topo indexes self.graph unchanged", why)
         # Q4: try_* : no callback after the Err edge
+        if key in ("try_fold", "try_for_each") and not m.param_calls(b):
+            # `self.map(callback).try_for_each(identity)`: the lazily mapped sibling (checked under its own name) invokes the
+            # callback once per pulled item; the short-circuiting consumer with the identity function returns the first Err and
+            # pulls nothing afterwards
+            mp = [(bb, t) for bb, t in b.calls() if (callee_path(t) or "").startswith("fn_graph::FnGraph::<F>::") and
+                  (callee_path(t) or "").split("::")[-1] == "map"]
+            cons = [(bb, t) for bb, t in b.calls() if callee_path(t) in ("std::iter::Iterator::try_for_each",)]
+            if len(mp) == 1 and len(cons) == 1 and len(cons[0][1]["args"]) == 2:
+                cb_src = fl.sources_operand(b, mp[0][1]["args"][1]) if len(mp[0][1]["args"]) > 1 else frozenset()
+                cb_ok = bool(cb_src) and all(s_.kind == "param" and s_[1] == b.id and s_[2] >= 2 for s_ in cb_src)
+                it = strip_refs(expr_operand(b, cons[0][1]["args"][0]))
+                it_ok = it.kind == "call" and len(it) > 3 and it[3] == mp[0][0]
+                fo = cons[0][1]["args"][1]
+                fpath = ((fo.get("fn") or {}).get("path") or "") if fo.get("k") == "const" else ""
+                id_ok = fpath in ("std::convert::identity", "core::convert::identity")
+                rd = get_defs(b).of(0)
+                ret_ok = len(rd) == 1 and rd[0][0] == "call" and rd[0][1] == cons[0][0]
+                okd = cb_ok and it_ok and id_ok and ret_ok
+                ctx.check(okd, rule + "4", "first-error|%s" % key, where,
+                          "%s is `self.map(callback).try_for_each(identity)`: the first Err produced by the callback is returned and nothing is pulled afterwards" % key,
+                          "%s delegates to map(): callback passed on: %s, consumer over map's iterator: %s, consumer function is identity: %s, result returned unchanged: %s" % (
+                              key, cb_ok, it_ok, id_ok, ret_ok))
+                ctx.check(okd, rule + "4", "result-checked|%s" % key, where,
+                          "every callback result passes through the short-circuiting consumer", "the callback's results are not all examined")
+                continue
         if key in ("try_fold", "try_for_each"):
             b_api = b
             deleg_ok = True
@@ -1474,6 +1556,8 @@ def edge_eq_rule(ctx, rule):
         if eqb is not None:
             re_ = return_expr(eqb)
             r = strip_refs(re_) if re_ is not None else None
+            if r is not None and r.kind == "call" and r[1] in ("std::cmp::PartialEq::eq",) and len(r[2]) == 2:
+                r = E(("binop", "Eq", r[2][0], r[2][1]))
             if r is not None and r.kind == "binop" and r[1] == "Eq":
                 a, b_ = strip_refs(r[2]), strip_refs(r[3])
                 def is_discr_of(x, k):
@@ -1564,7 +1648,7 @@ def G_rules(ctx, rule="G"):
         chain = iterator_chain(ctx, fg, expr_operand(fg, t["args"][1]))
         names = [c[0] for c in chain]
         sel = [x for x in names if x in SELECTIVE_ITER or x in MORE_ITER]
-        has_raw = any(x.endswith("::raw_edges") for x in names)
+        has_raw = any(x.endswith("::raw_edges") or x.endswith("::edge_references") for x in names)
         maps = [c for c in chain if c[0] == "std::iter::Iterator::map"]
         tup_ok = False
         # compose the maps from the raw edge outwards: tags of the tuple elements
@@ -1580,11 +1664,16 @@ def G_rules(ctx, rule="G"):
             for x in re_[4]:
                 x = strip_refs(x)
                 if tags is None:
-                    if x.kind == "call" and x[1].endswith("Edge::<E, Ix>::source"):
+                    if x.kind == "deref":
+                        x = strip_refs(x[1]) if len(x) > 1 and isinstance(x[1], E) else x
+                    if x.kind == "call" and x[1].endswith(("Edge::<E, Ix>::source", "EdgeRef::source")):
                         new.append("src")
-                    elif x.kind == "call" and x[1].endswith("Edge::<E, Ix>::target"):
+                    elif x.kind == "call" and x[1].endswith(("Edge::<E, Ix>::target", "EdgeRef::target")):
                         new.append("dst")
                     elif x.kind == "field" and strip_refs(x[1]).kind == "arg":
+                        new.append("w")
+                    elif x.kind == "call" and x[1].endswith(("EdgeRef::weight", "::weight")) and "EdgeRef" in x[1] + "EdgeReference" and \
+                            ("EdgeRef::" in x[1] or "EdgeReference::" in x[1]) and x[2] and strip_refs(x[2][0]).kind == "arg":
                         new.append("w")
                     else:
                         new.append("?" + fmt_expr(x, fcl))
@@ -1599,7 +1688,7 @@ def G_rules(ctx, rule="G"):
             why = "edge tuple is %s" % (tags,)
         elif bad_map:
             why = bad_map
-        gs = [c for c in chain if c[0].endswith("::raw_edges")]
+        gs = [c for c in chain if c[0].endswith("::raw_edges") or c[0].endswith("::edge_references")]
         g_ok = False
         if gs:
             ge = strip_refs(gs[0][2][2][0])
@@ -1726,10 +1815,14 @@ def G_rules(ctx, rule="G"):
         for bx in m.reach_bodies(eqb.id):
             for bb, t in bx.calls():
                 p = callee_path(t) or ""
-                if p.endswith("Edge::<E, Ix>::source"):
+                if p.endswith(("Edge::<E, Ix>::source", "EdgeRef::source")):
                     attrs.add("source")
-                if p.endswith("Edge::<E, Ix>::target"):
+                if p.endswith(("Edge::<E, Ix>::target", "EdgeRef::target")):
                     attrs.add("target")
+                if p.endswith("EdgeRef::weight") or ("EdgeReference::" in p and p.endswith("::weight")):
+                    attrs.add("edge-weight")
+                if p.endswith("::node_weights"):
+                    attrs.add("node-weight")
             for bb, si, s in bx.stmts():
                 if s["k"] == "assign" and s["rv"]["k"] == "ref":
                     ty = s["rv"]["pl"]["ty"]
